@@ -270,3 +270,46 @@ func firstDiff(got, want []kv) string {
 	}
 	return "same"
 }
+
+// runTornSeekCase: a Seek that has taken its snapshot of the cached items but not yet opened the
+// scan of the lower store, a writer batch {B, C} and a complete Persist in between. An atomic
+// read would answer with the map before the batch or after it.
+func runTornSeekCase(o *hx.Out, f *hx.Flags, k int, kind string, viaPrivate bool) {
+	w, err := newWorld(kind)
+	if err != nil {
+		panic(err)
+	}
+	defer w.close()
+	o.Case(k)
+	p := newPause(w.nodes[0].st)
+	d := dao.NewSimple(p, false)
+	s := d.Store
+	key := func(b byte) []byte { return append(bytes.Clone(daoPrefix), b) }
+	s.PutChangeSet(nil, map[string][]byte{string(key('A')): {1}, string(key('B')): {1}})
+	before := map[string][]byte{string(key('A')): {1}, string(key('B')): {1}}
+	after := map[string][]byte{string(key('A')): {1}, string(key('B')): {2}, string(key('C')): {2}}
+	var reader storage.Store = s
+	if viaPrivate {
+		reader = d.GetPrivate().Store
+	}
+	p.seekHold.Store(true)
+	res := make(chan []kv, 1)
+	go func() {
+		got, _ := realSeek(reader, seekRange{pfx: daoPrefix})
+		res <- got
+	}()
+	<-p.seekAt // the reader holds its snapshot {A:1, B:1} and is about to scan the lower store
+	p.seekHold.Store(false)
+	s.PutChangeSet(nil, map[string][]byte{string(key('B')): {2}, string(key('C')): {2}})
+	if _, err := s.Persist(); err != nil {
+		o.Fail("persist-error", k, "Persist: %v", err)
+	}
+	p.seekGo <- struct{}{}
+	got := <-res
+	sr := seekRange{pfx: daoPrefix}
+	if !sameKVs(got, specSeek(before, sr)) && !sameKVs(got, specSeek(after, sr)) {
+		o.Fail("seek-torn-by-write-and-flush", k, "Seek(private layer on top: %v) overlapped PutChangeSet{B:2,C:2} + Persist: got %s, the map was %s before the batch and %s after it",
+			viaPrivate, showKVs(got), showKVs(specSeek(before, sr)), showKVs(specSeek(after, sr)))
+	}
+	o.Count("conc:torn-seek-cases")
+}
